@@ -145,6 +145,30 @@ func c41(c *Ctx) {
 			}
 		}
 		c.Expect(n == 4, nil, rk, "four-extra-stores", "expected host, service, method and constant-key stores")
+		// builder selection: the exact "/service/method" entry wins; the "/service/" entry is consulted only without it; no keys only without both
+		var exact, wild *ssa.Lookup
+		for _, in := range instrsWhere(rk, func(in ssa.Instruction) bool { l, ok := in.(*ssa.Lookup); return ok && l.CommaOk && ParamV("bm")(l.X) }) {
+			l := in.(*ssa.Lookup)
+			if ParamV("path")(l.Index) {
+				exact = l
+			} else if sl, ok := l.Index.(*ssa.Slice); ok && ParamV("path")(sl.X) && sl.Low == nil {
+				wild = l
+			}
+		}
+		if c.Expect(exact != nil && wild != nil, nil, rk, "builder-lookups", "expected a lookup by full path and one by service prefix") {
+			okOf := func(l *ssa.Lookup) VM { return ExtractOf(func(v ssa.Value) bool { return v == ssa.Value(l) }, 1) }
+			c.MustFact(wild, "service-entry-only-without-exact-entry", Truth(okOf(exact), false))
+			for _, r := range returnsOf(rk) {
+				if r.Block() == rk.Recover {
+					continue
+				}
+				if _, isConst := r.Results[0].(*ssa.Const); isConst {
+					c.MustFact(r, "no-keys-only-without-any-builder", Truth(okOf(wild), false))
+				} else {
+					c.Unreachable(r, "keys-need-a-builder", Truth(okOf(exact), false), Truth(okOf(wild), false))
+				}
+			}
+		}
 		ms := one(c, "mapToString call", callsIn(rk, Callee(rlsk, "mapToString")))
 		c.ArgIs(ms, 0, "string-of-the-same-map", kv)
 	})
@@ -323,6 +347,43 @@ func c41(c *Ctx) {
 		}
 		for _, s := range storesToField(rs, c.field(rlsp, dc, "maxSize")) {
 			c.ValueIs(s, s.Val, "limit-updated", ParamV("size"))
+		}
+		// the operations are skipped only for the stated reasons: after shutdown (all three), for an entry larger than the whole cache (add)
+		fired := CallRes(Callee("internal/grpcsync", "Event.HasFired"), 0)
+		skipOK := func(extra ...FM) func(from, to *ssa.BasicBlock) bool {
+			return func(from, to *ssa.BasicBlock) bool {
+				fs := edgeFacts(from, to)
+				if _, ok := hasFact(fs, Truth(fired, true)); ok {
+					return true
+				}
+				for _, fm := range extra {
+					if _, ok := hasFact(fs, fm); ok {
+						return true
+					}
+				}
+				return false
+			}
+		}
+		for _, s := range storesToField(rs, c.field(rlsp, dc, "maxSize")) {
+			s := s
+			c.MustPass("resize-skipped-only-after-shutdown", pathQuery{Fn: rs, AtEntry: true, Barrier: func(in ssa.Instruction) bool { return in == ssa.Instruction(s) }, Target: isReturn, EdgeBlock: skipOK()}, s)
+		}
+		{
+			ae := c.fn(rlsp, dc+".addEntry")
+			fSize := c.field(rlsp, "cacheEntry", "size")
+			fMax := c.field(rlsp, dc, "maxSize")
+			tooBig := FM(func(f Fact) bool { return Cmp(FieldLoad(fSize), token.GTR, FieldLoad(fMax))(f) || Cmp(FieldLoad(fSize), token.GEQ, FieldLoad(fMax))(f) })
+			for _, in := range instrsWhere(ae, func(in ssa.Instruction) bool { mu, ok := in.(*ssa.MapUpdate); return ok && FieldLoad(c.field(rlsp, dc, "entries"))(mu.Map) }) {
+				in := in
+				c.MustPass("add-skipped-only-after-shutdown-or-for-an-oversized-entry", pathQuery{Fn: ae, AtEntry: true, Barrier: func(x ssa.Instruction) bool { return x == in }, Target: isReturn, EdgeBlock: skipOK(tooBig)}, in)
+				c.Unreachable(in, "oversized-entry-not-added", tooBig)
+			}
+			ge := c.fn(rlsp, dc+".getEntry")
+			for _, r := range returnsOf(ge) {
+				if r.Block() != ge.Recover && ConstNil(r.Results[0]) {
+					c.MustFactAny(r, "miss-only-after-shutdown-or-without-entry", Truth(fired, true), Truth(CommaOkOf(FieldLoad(c.field(rlsp, dc, "entries"))), false))
+				}
+			}
 		}
 		lru := func(fn, callee string) {
 			f := c.fn(rlsp, "lru."+fn)
